@@ -25,7 +25,8 @@
 // ------------------------------------------------------------------------------------------------ scenario description
 enum { KEEP_IF_SAME = 1,   // the command leaves an output whose content would not change untouched (what restat rules are for)
        HALVE = 2,          // the command's result depends on its inputs only through content/2 (so that some edits do not change it)
-       ALWAYS_FAILS = 4 };
+       ALWAYS_FAILS = 4,
+       EXPECT_CYCLE = 8 };  // by the manifest text this statement lies on a dependency cycle (expectation independent of ninja's own parse)
 struct CmdSpec {
   const char* out;            // first output of the statement this entry describes
   const char* extra_reads;    // files the command reads beyond its declared explicit/implicit inputs; it reports them (depfile / deps / dyndep)
